@@ -790,3 +790,336 @@ Example w3_monic_hyp :
   PolyZ.canonZ [-8; -2; -1; 1] = true /\ length [-8; -2; -1; 1] = 4%nat /\ nth 3 [-8; -2; -1; 1] 0 = 1 /\
   exists om, find_integral_basis Checked [-8; -2; -1; 1] = Done om.
 Proof. split; [reflexivity|]. split; [reflexivity|]. split; [reflexivity|]. eexists. vm_compute. reflexivity. Qed.
+
+(** * Fourth wave: the exponent bookkeeping never underflows; monic f: the driver returns; Pohst-Zassenhaus *)
+From RNT.Refine Require Import Round2W4NoPanic.
+
+(** [P] prime_loop_no_underflow: the statement of [prime_loop_no_underflow_partial] without its integrality
+    hypothesis, in both build profiles.  On an order [o] (stored basis, contains 1, [get_mult_table] returns; f with
+    non-zero leading coefficient, degree deg with 2 deg < 2^64) whose discriminant is p^e * r with the prime p not
+    dividing r and 0 <= e < 2^64, the [while] loop of the driver never panics: every step returns
+    ([order_step_returns]), every order on the way has an integer discriminant (C15 [order_disc_trace_form]),
+    disc(old) = disc(new) p^(2 howmany) ([disc_index], [one_step_index]), hence 2 howmany <= e at every turn. *)
+Theorem prime_loop_no_underflow : forall m f deg p,
+  PolyZ.canonZ f = true -> length f = S deg -> (1 <= deg)%nat -> 2 * Z.of_nat deg < two64 -> prime p ->
+  forall fuel o e r d t,
+  is_order f deg o -> order_disc m o f = Done d -> d = p ^ e * r -> rel_prime p r -> 0 <= e < two64 ->
+  prime_loop fuel m f o p e <> Panic t.
+Proof. exact Round2W4NoPanic.prime_loop_no_underflow_order. Qed.
+
+(** [P] prime_loop_returns: ... and with the fuel [e < 2 fuel] (the driver gives [e + 2]) it returns an order whose
+    discriminant is that of the input divided by a power of p *)
+Theorem prime_loop_returns : forall m f deg,
+  PolyZ.canonZ f = true -> length f = S deg -> (1 <= deg)%nat -> 2 * Z.of_nat deg < two64 ->
+  forall p, prime p ->
+  forall fuel o e r d,
+  is_order f deg o -> order_disc m o f = Done d -> d = p ^ e * r -> rel_prime p r -> 0 <= e < two64 ->
+  match prime_loop fuel m f o p e with
+  | Done o' => is_order f deg o' /\ exists d' s, order_disc m o' f = Done d' /\ 0 <= s /\ d = d' * p ^ s
+  | Panic _ => False
+  | OutOfFuel => 2 * Z.of_nat fuel <= e
+  end.
+Proof. exact Round2W4NoPanic.prime_loop_ok. Qed.
+
+(** [P] find_integral_basis_no_panic_monic: for every monic f of degree deg >= 1 (2 deg < 2^64) whose starting order
+    Z[theta] has a non-zero discriminant d0 = disc(f) with fewer than 2^64 bits (so that the exponents of the trial
+    factorisation fit the u64 they are stored in), in BOTH build profiles the driver returns (no panic, enough
+    fuel), and the result is an order.  (For d0 = 0 [trial_factorize] panics on its [assert!(n >= 1)].) *)
+Theorem find_integral_basis_no_panic_monic : forall m f deg,
+  PolyZ.canonZ f = true -> length f = S deg -> (1 <= deg)%nat -> 2 * Z.of_nat deg < two64 -> nth deg f 0 = 1 ->
+  (forall o0 d0, non_monic_initial_order f = Done o0 -> order_disc m o0 f = Done d0 ->
+     d0 <> 0 /\ Z.log2 (Z.abs d0) < two64) ->
+  exists O, find_integral_basis m f = Done O /\ is_order f deg O.
+Proof. exact Round2W4NoPanic.find_integral_basis_no_panic_monic. Qed.
+
+(** [P] the starting order of a monic f is computed *)
+Theorem non_monic_total_monic : forall f deg, length f = S deg -> (1 <= deg)%nat -> nth deg f 0 = 1 ->
+  exists o0, non_monic_initial_order f = Done o0.
+Proof. exact Round2W4NoPanic.non_monic_total_monic. Qed.
+
+(** non-vacuity: the discriminant hypothesis on x^2 + 3 (d0 = -12), x^2 + 12 (d0 = -48), Dedekind's cubic (d0 = -2012) *)
+Example w4_no_panic_hyp : forall f, In f [[3; 0; 1]; [12; 0; 1]; [-8; -2; -1; 1]] ->
+  PolyZ.canonZ f = true /\ nth (length f - 1) f 0 = 1 /\
+  forall m o0 d0, non_monic_initial_order f = Done o0 -> order_disc m o0 f = Done d0 ->
+    d0 <> 0 /\ Z.log2 (Z.abs d0) < two64.
+Proof.
+  intros f [<-|[<-|[<-|[]]]]; (split; [reflexivity|]; split; [reflexivity|]);
+    intros m o0 d0 N0 D0; vm_compute in N0; injection N0 as <-;
+    destruct m; vm_compute in D0; injection D0 as <-; split; try discriminate; reflexivity.
+Qed.
+
+(** the hypotheses of [prime_loop_no_underflow] on x^2 + 12 at p = 2: disc = -48 = 2^4 * -3 *)
+Example w4_underflow_hyp :
+  match non_monic_initial_order [12; 0; 1] with
+  | Done o0 => order_disc Checked o0 [12; 0; 1] = Done (2 ^ 4 * -3) /\ rel_prime 2 (-3) /\
+               exists T0, get_mult_table o0 [12; 0; 1] = Done T0
+  | _ => False end.
+Proof.
+  vm_compute non_monic_initial_order. cbv iota. split; [vm_compute; reflexivity|]. split.
+  - apply rel_prime_sym, rel_prime_mod_rev; [reflexivity|]. change (-3 mod 2) with 1. apply rel_prime_1.
+  - vm_compute. eexists. reflexivity.
+Qed.
+
+(** ** Pohst-Zassenhaus: a Round 2 step returns howmany = 0 iff the order is p-maximal; the result is the maximal order
+    [over_order f deg o o2]: [o2] is a deg x deg rational basis on which [Order::get_mult_table] returns (the lattice is
+    closed under multiplication, with integer structure constants) and every row of [o] is an integer combination of
+    rows of [o2] (O is inside O2; hence 1 is in O2 when it is in O).
+    [p_maximal f deg p o]: for every over-order [o2] of [o], p does not divide [order_index o2 o] -- the model's
+    [index(&o2, &o)] = det(o) / det(o2), the group index [O2 : O].  (Equivalent to: no over-order of p-power index
+    other than O itself; an over-order whose index is divisible by p contains one of p-power index.) *)
+From RNT.Refine Require Import Round2W4PZ Round2W4Max.
+From RNT.Refine Require Round2W4Table Round2W4Index.
+
+(** [P] pz_core (Cohen, A Course in Computational Algebraic Number Theory, Thm 6.1.3; Pohst-Zassenhaus Lemma 5.53), in
+    the coordinates of [one_step_lattices].  T: the commutative associative deg x deg x deg table of an order, with
+    unit; p prime; [i_p] generates the p-radical { x : x^pow = 0 mod p } (model's [pow_mod_p], table reduced as
+    [one_step] does), pow = p^k >= deg.  An over-ring O'' with N O'' inside O is given by the set Ll of the coordinate
+    vectors of N O'' (N Z^deg inside Ll, Ll * Ll inside N Ll).  If some element w0 / N of O'' is not in O while
+    p w0 / N is, then there is u in Z^deg, not in p Z^deg, with u * y in p I_p for every y in I_p: u / p is in the
+    multiplier ring of I_p and not in O -- the Round 2 step enlarges O.
+    Proof: element by element in the [comRingType] of the table (Round2W4Core/Ring); nilpotent elements modulo p have
+    deg-th power 0 (a nilpotent deg x deg matrix over F_p, regular representation of Round2W3Frob). *)
+Theorem pz_core : forall (deg : nat) (p : Z) (T : MultTable.table) (k : nat) (i_p : list (list Z)) (N : Z)
+    (Ll : list Z -> Prop) (w0 : list Z),
+  (1 <= deg)%nat -> prime p ->
+  MultTableOps.cube deg T = true -> AlgNormMx.tcomm T deg -> AlgNormMx.tassoc T deg ->
+  (exists one, length one = deg /\ forall x, length x = deg -> AlgNormMx.tmul T deg one x = x) ->
+  let tbl := map (map (map (fun x => Z.rem (Z.rem x (p * p)) p))) T in
+  let pow := p ^ Z.of_nat k in
+  Z.of_nat deg <= pow ->
+  wf deg i_p ->
+  (forall x, In_rowspanZ deg x i_p <->
+     length x = deg /\ exists r, pow_mod_p x pow tbl p = Done r /\ forall j, (j < deg)%nat -> (p | nth j r 0)) ->
+  0 < N ->
+  (forall y, length y = deg -> Ll (vscale N y)) ->
+  (forall a b, length a = deg -> length b = deg -> Ll a -> Ll b ->
+     exists c, ssrbool.and3 (length c = deg) (Ll c) (AlgNormMx.tmul T deg a b = vscale N c)) ->
+  length w0 = deg -> Ll w0 ->
+  (forall j, (N | p * nth j w0 0)) ->
+  ~ (forall j, (N | nth j w0 0)) ->
+  exists u, ssrbool.and3 (length u = deg) (~ (forall j, (p | nth j u 0)))
+    (forall y, In_rowspanZ deg y i_p ->
+       exists z, In_rowspanZ deg z i_p /\ AlgNormMx.tmul T deg u y = vscale p z).
+Proof. exact Round2W4Table.pz_table. Qed.
+
+(** [P] step_zero_p_maximal (Pohst-Zassenhaus, the hard direction): if the Round 2 step at the prime p on an order O
+    returns howmany = 0 (index 1) then O is p-maximal *)
+Theorem step_zero_p_maximal : forall f deg o p o',
+  PolyZ.canonZ f = true -> length f = S deg -> (1 <= deg)%nat -> prime p ->
+  is_order f deg o -> one_step f o p = Done (o', 0) -> p_maximal f deg p o.
+Proof. exact Round2W4PZ.step_zero_p_maximal. Qed.
+
+(** [P] p_maximal_step_zero (the easy direction): on a p-maximal order the step returns howmany = 0 (its result is an
+    over-order of index p^howmany) *)
+Theorem p_maximal_step_zero : forall f deg o p o' hh,
+  PolyZ.canonZ f = true -> length f = S deg -> (1 <= deg)%nat -> prime p ->
+  is_order f deg o -> p_maximal f deg p o -> one_step f o p = Done (o', hh) -> hh = 0.
+Proof. exact Round2W4PZ.p_maximal_step_zero. Qed.
+
+Theorem step_zero_iff_p_maximal : forall f deg o p o' hh,
+  PolyZ.canonZ f = true -> length f = S deg -> (1 <= deg)%nat -> prime p ->
+  is_order f deg o -> one_step f o p = Done (o', hh) ->
+  (hh = 0 <-> p_maximal f deg p o).
+Proof. exact Round2W4PZ.step_zero_iff_p_maximal. Qed.
+
+(** [P] small_disc_p_maximal: if p^2 does not divide the discriminant of O then O is p-maximal
+    (disc(O) = disc(O2) * index^2 and disc(O2) is an integer: C15 [order_disc_trace_form]) *)
+Theorem small_disc_p_maximal : forall m f deg,
+  PolyZ.canonZ f = true -> length f = S deg -> (1 <= deg)%nat -> 2 * Z.of_nat deg < two64 ->
+  forall o p d, order_disc m o f = Done d -> ~ (p * p | d) -> p_maximal f deg p o.
+Proof. exact Round2W4Max.small_disc_p_maximal. Qed.
+
+(** [P] p_maximal_transfer: p-maximality passes to a larger order whose index is prime to p
+    (disc(O1) = disc(O2) * c with c prime to p) *)
+Theorem p_maximal_transfer : forall m f deg,
+  PolyZ.canonZ f = true -> length f = S deg -> (1 <= deg)%nat -> 2 * Z.of_nat deg < two64 ->
+  forall o1 o2 p d1 d2 c,
+  prime p -> is_order f deg o1 -> is_order f deg o2 ->
+  (forall t, (t < deg)%nat -> in_spanQ deg (nth t o1 []) o2) ->
+  order_disc m o1 f = Done d1 -> order_disc m o2 f = Done d2 -> d1 <> 0 -> d1 = d2 * c -> rel_prime p c ->
+  p_maximal f deg p o1 -> p_maximal f deg p o2.
+Proof. exact Round2W4Max.p_maximal_transfer. Qed.
+
+(** [P] prime_loop_p_maximal: the [while] loop of the driver at a prime p, on an order whose discriminant is p^e r <> 0
+    with p not dividing r and 0 <= e < 2^64, never panics, and when it returns (it does with the fuel e < 2 fuel) the
+    result is an order that contains the input, whose discriminant is that of the input divided by a power of p, and
+    which is p-maximal: the loop exits with p^2 not dividing the discriminant, or after a step that returned 0 *)
+Theorem prime_loop_p_maximal : forall m f deg,
+  PolyZ.canonZ f = true -> length f = S deg -> (1 <= deg)%nat -> 2 * Z.of_nat deg < two64 ->
+  forall p, prime p ->
+  forall fuel o e r d,
+  is_order f deg o -> order_disc m o f = Done d -> d = p ^ e * r -> r <> 0 -> rel_prime p r -> 0 <= e < two64 ->
+  match prime_loop fuel m f o p e with
+  | Done o' => is_order f deg o' /\ (forall t, (t < deg)%nat -> in_spanQ deg (nth t o []) o') /\
+               (exists d' s, order_disc m o' f = Done d' /\ 0 <= s /\ d = d' * p ^ s) /\
+               p_maximal f deg p o'
+  | Panic _ => False
+  | OutOfFuel => 2 * Z.of_nat fuel <= e
+  end.
+Proof. exact Round2W4Max.prime_loop_pmax. Qed.
+
+(** [P] find_integral_basis_p_maximal: for every monic f of degree deg >= 1 (2 deg < 2^64) whose starting order has a
+    non-zero discriminant of fewer than 2^64 bits, in both build profiles the driver returns an order that is
+    p-maximal at EVERY prime p (the primes whose square divides the discriminant of the starting order are visited
+    by the loop; at the others p^2 does not divide the discriminant) *)
+Theorem find_integral_basis_p_maximal : forall m f deg,
+  PolyZ.canonZ f = true -> length f = S deg -> (1 <= deg)%nat -> 2 * Z.of_nat deg < two64 -> nth deg f 0 = 1 ->
+  (forall o0 d0, non_monic_initial_order f = Done o0 -> order_disc m o0 f = Done d0 ->
+     d0 <> 0 /\ Z.log2 (Z.abs d0) < two64) ->
+  exists O, find_integral_basis m f = Done O /\ is_order f deg O /\
+            forall p, prime p -> p_maximal f deg p O.
+Proof. exact Round2W4Max.find_integral_basis_p_maximal. Qed.
+
+(** [P] find_integral_basis_maximal: ... hence the returned order O is THE maximal order: it contains 1, is closed under
+    multiplication, and every over-order O2 (a lattice closed under multiplication that contains O) has index 1 (or
+    -1: [order_index] is a quotient of determinants, negative when the basis of O2 has the other orientation) and the
+    same lattice as O: every row of O2 is an integer combination of rows of O.  (A prime p dividing the index would
+    contradict p-maximality.) *)
+Theorem find_integral_basis_maximal : forall m f deg,
+  PolyZ.canonZ f = true -> length f = S deg -> (1 <= deg)%nat -> 2 * Z.of_nat deg < two64 -> nth deg f 0 = 1 ->
+  (forall o0 d0, non_monic_initial_order f = Done o0 -> order_disc m o0 f = Done d0 ->
+     d0 <> 0 /\ Z.log2 (Z.abs d0) < two64) ->
+  exists O, find_integral_basis m f = Done O /\ is_order f deg O /\
+    forall o2, over_order f deg O o2 ->
+      (order_index o2 O = Done 1 \/ order_index o2 O = Done (-1)) /\
+      forall t, (t < deg)%nat -> in_spanQ deg (nth t o2 []) O.
+Proof. exact Round2W4Max.find_integral_basis_maximal. Qed.
+
+(** [P] over_unit_equal: an over-lattice in which a stored basis has index 1 or -1 is the same lattice *)
+Theorem over_unit_equal : forall n (o o2 : qmat) (i : Z),
+  lower_from n 0 o -> length o2 = n -> Forall (fun r => length r = n) o2 ->
+  (forall t, (t < n)%nat -> in_spanQ n (nth t o []) o2) ->
+  order_index o2 o = Done i -> (i = 1 \/ i = -1) ->
+  forall t, (t < n)%nat -> in_spanQ n (nth t o2 []) o.
+Proof. exact Round2W4Index.over_unit_equal. Qed.
+
+(** ** Non-vacuity (fourth wave) *)
+
+(** the definitions are not trivially true: Z[sqrt -3] (the starting order of x^2 + 3) is NOT 2-maximal -- the maximal
+    order <1, (1 + sqrt -3)/2> is an over-order in which it has index 2 -- and, in accordance with
+    [step_zero_iff_p_maximal], the step at 2 returns howmany = 1 on it *)
+Example w4_not_p_maximal :
+  match non_monic_initial_order [3; 0; 1], find_integral_basis Checked [3; 0; 1] with
+  | Done o0, Done om =>
+      over_order [3; 0; 1] 2 o0 om /\ order_index om o0 = Done 2 /\ ~ p_maximal [3; 0; 1] 2 2 o0 /\
+      match one_step [3; 0; 1] o0 2 with Done (_, h) => h = 1 | _ => False end
+  | _, _ => False
+  end.
+Proof.
+  vm_compute non_monic_initial_order. vm_compute find_integral_basis. cbv iota.
+  match goal with |- over_order _ _ ?a ?b /\ _ => set (o0 := a); set (om := b) end.
+  assert (OO : over_order [3; 0; 1] 2 o0 om).
+  { split; [reflexivity|]. split; [repeat constructor|]. split; [vm_compute; eexists; reflexivity|].
+    intros [|[|t]] Ht.
+    - exists [1; 0]. split; [reflexivity|]. intros [|[|j]] Hj; try (apply Qc_is_canon; reflexivity). exfalso. lia.
+    - exists [-1; 2]. split; [reflexivity|]. intros [|[|j]] Hj; try (apply Qc_is_canon; reflexivity). exfalso. lia.
+    - exfalso. lia. }
+  assert (I2 : order_index om o0 = Done 2) by (vm_compute; reflexivity).
+  split; [exact OO|]. split; [exact I2|]. split.
+  - intros PM. apply (PM _ 2 OO I2). exists 1. reflexivity.
+  - vm_compute. reflexivity.
+Qed.
+
+(** the hypotheses of [step_zero_iff_p_maximal] / [step_zero_p_maximal]: the maximal order of Q(sqrt -3) is an order in
+    the sense of [is_order] (by [find_integral_basis_no_panic_monic] and [w4_no_panic_hyp]), 2 and 3 are prime, and the
+    steps at 2 and at 3 return 0 on it: it is 2-maximal and 3-maximal *)
+Example w4_step_zero_hyp :
+  prime 2 /\ prime 3 /\
+  match find_integral_basis Checked [3; 0; 1] with
+  | Done om => (exists o', one_step [3; 0; 1] om 2 = Done (o', 0)) /\ (exists o', one_step [3; 0; 1] om 3 = Done (o', 0))
+  | _ => False end.
+Proof.
+  split; [exact prime_2|]. split; [exact prime_3|].
+  vm_compute find_integral_basis. cbv iota. split; vm_compute; eexists; reflexivity.
+Qed.
+
+(** [small_disc_p_maximal] on Dedekind's cubic: the result has discriminant -503 (prime): p^2 divides it for no p *)
+Example w4_dedekind_disc :
+  match find_integral_basis Checked [-8; -2; -1; 1] with
+  | Done om => order_disc Checked om [-8; -2; -1; 1] = Done (-503) /\ ~ (2 * 2 | -503)
+  | _ => False end.
+Proof.
+  vm_compute find_integral_basis. cbv iota. split; [vm_compute; reflexivity|].
+  intros [q Hq]. lia.
+Qed.
+
+(** the hypotheses of [find_integral_basis_maximal] on x^2 + 3, x^2 + 12 and Dedekind's cubic are those of
+    [find_integral_basis_no_panic_monic] ([w4_no_panic_hyp]); the degree bound: *)
+Example w4_maximal_hyp : 2 * Z.of_nat 2 < two64 /\ 2 * Z.of_nat 3 < two64.
+Proof. split; reflexivity. Qed.
+
+(** [pz_core] concretely on Z[sqrt -3] (T below), p = 2, k = 1, I_p = <(1,1), (-2,0)>: the over-ring O'' = maximal order,
+    N = 2, Ll = { v : v0 = v1 mod 2 } = coordinates of 2 O'', w0 = (1, 1) (w0 / 2 = (1 + sqrt -3)/2 is in O'' and not in O,
+    2 w0 / 2 is in O); the conclusion holds with u = (1, 1): u * (1,1) = (-2, 2) = 2 (-1, 1) and u * (-2, 0) = 2 (-1, -1) *)
+Example w4_pz_core_data :
+  let T := [[[1; 0]; [0; 1]]; [[0; 1]; [-3; 0]]] in
+  AlgNormMx.tmul T 2 [1; 1] [1; 1] = vscale 2 [-1; 1] /\ AlgNormMx.tmul T 2 [1; 1] [-2; 0] = vscale 2 [-1; -1] /\
+  In_rowspanZ 2 [-1; 1] [[1; 1]; [-2; 0]] /\ In_rowspanZ 2 [-1; -1] [[1; 1]; [-2; 0]] /\
+  ~ (forall j, (2 | nth j [1; 1] 0)).
+Proof.
+  split; [apply (Round2W3Mul.tmul_by_mt (n := 2%nat)); reflexivity|].
+  split; [apply (Round2W3Mul.tmul_by_mt (n := 2%nat)); reflexivity|].
+  split; [exists [1; 1]; split; reflexivity|]. split; [exists [-1; 0]; split; reflexivity|].
+  intros Hall. destruct (Hall 0%nat) as [q Hq]. cbn in Hq. lia.
+Qed.
+
+(** ** the formulation with over-orders of p-power index; non-monic f under the flag *)
+
+(** [p_maximal_pow f deg p o]: [o] has index p^k in no over-order unless k = 0 (the usual wording of p-maximality).
+    [P] step_zero_equivalences: on an order, at a prime, for a returning step (it always returns: [order_step_returns]):
+    howmany = 0 <-> p divides the index of O in no over-order <-> O has no over-order of index p^k with k > 0 *)
+Theorem step_zero_equivalences : forall f deg o p o' hh,
+  PolyZ.canonZ f = true -> length f = S deg -> (1 <= deg)%nat -> prime p ->
+  is_order f deg o -> one_step f o p = Done (o', hh) ->
+  (hh = 0 <-> p_maximal f deg p o) /\ (p_maximal f deg p o <-> p_maximal_pow f deg p o).
+Proof. exact Round2W4PZ.step_zero_equivalences. Qed.
+
+(** [P] all_p_maximal_maximal: an order that is p-maximal at every prime is maximal *)
+Theorem all_p_maximal_maximal : forall f deg O,
+  is_order f deg O -> (forall p, prime p -> p_maximal f deg p O) ->
+  forall o2, over_order f deg O o2 ->
+    (order_index o2 O = Done 1 \/ order_index o2 O = Done (-1)) /\
+    forall t, (t < deg)%nat -> in_spanQ deg (nth t o2 []) O.
+Proof. exact Round2W4Max.all_p_maximal_maximal. Qed.
+
+(** [C] find_integral_basis_maximal_partial: the same as [find_integral_basis_maximal] for ANY f with non-zero leading
+    coefficient (monic or not), PROVIDED the starting order Z[theta] cap Z[1/theta] is computed and closed under
+    multiplication (flag computed by the model: [non_monic_initial_order] and [Order::get_mult_table] return; always the
+    case for monic f, [monic_start_table]).
+    Full statement: the same without the flag (the starting order of every non-constant f is a ring: not proved). *)
+Theorem find_integral_basis_maximal_partial : forall m f deg,
+  PolyZ.canonZ f = true -> length f = S deg -> (1 <= deg)%nat -> 2 * Z.of_nat deg < two64 ->
+  (exists o0 T0, non_monic_initial_order f = Done o0 /\ get_mult_table o0 f = Done T0) ->
+  (forall o0 d0, non_monic_initial_order f = Done o0 -> order_disc m o0 f = Done d0 ->
+     d0 <> 0 /\ Z.log2 (Z.abs d0) < two64) ->
+  exists O, find_integral_basis m f = Done O /\ is_order f deg O /\
+    forall o2, over_order f deg O o2 ->
+      (order_index o2 O = Done 1 \/ order_index o2 O = Done (-1)) /\
+      forall t, (t < deg)%nat -> in_spanQ deg (nth t o2 []) O.
+Proof. exact Round2W4Max.find_integral_basis_maximal_flag. Qed.
+
+Theorem find_integral_basis_p_maximal_partial : forall m f deg,
+  PolyZ.canonZ f = true -> length f = S deg -> (1 <= deg)%nat -> 2 * Z.of_nat deg < two64 ->
+  (exists o0 T0, non_monic_initial_order f = Done o0 /\ get_mult_table o0 f = Done T0) ->
+  (forall o0 d0, non_monic_initial_order f = Done o0 -> order_disc m o0 f = Done d0 ->
+     d0 <> 0 /\ Z.log2 (Z.abs d0) < two64) ->
+  exists O, find_integral_basis m f = Done O /\ is_order f deg O /\
+            forall p, prime p -> p_maximal f deg p O.
+Proof. exact Round2W4Max.find_integral_basis_p_maximal_flag. Qed.
+
+(** non-vacuity: the flag and the discriminant hypothesis on the non-monic 2x^3 + x + 1 (d0 = -116 = -2^2 * 29) *)
+Example w4_flag_nonmonic :
+  PolyZ.canonZ [1; 1; 0; 2] = true /\
+  (exists o0 T0, non_monic_initial_order [1; 1; 0; 2] = Done o0 /\ get_mult_table o0 [1; 1; 0; 2] = Done T0) /\
+  forall m o0 d0, non_monic_initial_order [1; 1; 0; 2] = Done o0 -> order_disc m o0 [1; 1; 0; 2] = Done d0 ->
+    d0 <> 0 /\ Z.log2 (Z.abs d0) < two64.
+Proof.
+  split; [reflexivity|]. split.
+  - destruct (non_monic_initial_order [1; 1; 0; 2]) as [oa| |] eqn:E0; [|vm_compute in E0; discriminate..].
+    assert (X : match non_monic_initial_order [1; 1; 0; 2] with
+                | Done ob => match get_mult_table ob [1; 1; 0; 2] with Done _ => True | _ => False end
+                | _ => False end) by (vm_compute; exact I).
+    rewrite E0 in X. destruct (get_mult_table oa [1; 1; 0; 2]) as [Ta| |] eqn:G; [exists oa, Ta; split; [reflexivity|exact G]|destruct X..].
+  - intros m o0 d0 N0 D0; vm_compute in N0; injection N0 as <-;
+      destruct m; vm_compute in D0; injection D0 as <-; split; try discriminate; reflexivity.
+Qed.
